@@ -464,6 +464,13 @@ fn commutation(rep: &mut Report) {
         probe(acc, "Mat3::from(a2*b2) = Mat3::from(a2)*Mat3::from(b2)", &R::H3(Mat3::from(a2 * b2)), &R::H3(Mat3::from(a2) * Mat3::from(b2)), 64.0, &ctx);
         probe(acc, "Mat3::from(a2^-1) = Mat3::from(a2)^-1", &R::H3(Mat3::from(a2.inverse())), &R::H3(Mat3::from(a2).inverse()), 128.0, &ctx);
         probe(acc, "Affine2::from_mat3(A*B) = from_mat3(A)*from_mat3(B)", &R::A2(Affine2::from_mat3(Mat3::from(a2) * Mat3::from(b2))), &R::A2(Affine2::from_mat3(Mat3::from(a2)) * Affine2::from_mat3(Mat3::from(b2))), 64.0, &ctx);
+        // mixed operators: a matrix times an affine value (either order) is the product of the matrices
+        probe(acc, "Mat3 * Affine2 = Mat3 * Mat3::from(Affine2)", &R::H3(Mat3::from(a2) * b2), &R::H3(Mat3::from(a2) * Mat3::from(b2)), 64.0, &ctx);
+        probe(acc, "Affine2 * Mat3 = Mat3::from(Affine2) * Mat3", &R::H3(a2 * Mat3::from(b2)), &R::H3(Mat3::from(a2) * Mat3::from(b2)), 64.0, &ctx);
+        probe(acc, "Mat3A * Affine2 = Mat3A * Mat3A::from(Affine2)", &R::H3A(Mat3A::from(a2) * b2), &R::H3A(Mat3A::from(a2) * Mat3A::from(b2)), 64.0, &ctx);
+        probe(acc, "Affine2 * Mat3A = Mat3A::from(Affine2) * Mat3A", &R::H3A(a2 * Mat3A::from(b2)), &R::H3A(Mat3A::from(a2) * Mat3A::from(b2)), 64.0, &ctx);
+        probe(acc, "Mat4 * Affine3A = Mat4 * Mat4::from(Affine3A)", &R::M4(Mat4::from(a) * b), &R::M4(Mat4::from(a) * Mat4::from(b)), 64.0, &ctx);
+        probe(acc, "Affine3A * Mat4 = Mat4::from(Affine3A) * Mat4", &R::M4(a * Mat4::from(b)), &R::M4(Mat4::from(a) * Mat4::from(b)), 64.0, &ctx);
         // f64 counterparts commute with the casts
         probe(acc, "(a*b).as_daffine3 = a.as_daffine3*b.as_daffine3", &R::DA3((a * b).as_daffine3()), &R::DA3(a.as_daffine3() * b.as_daffine3()), 64.0, &ctx);
         probe(acc, "(q*p).as_dquat = q.as_dquat*p.as_dquat", &R::DQ((q * p).as_dquat()), &R::DQ(q.as_dquat() * p.as_dquat()), 32.0, &ctx);
